@@ -125,6 +125,24 @@ def run(ctx, rep):
             return out_c, out_m
         return out_c, None
 
+    # ---------------- long wheels (populations of tens to hundreds of individuals): every boundary, both neighbours of every boundary,
+    #                  below the first and above the last cumulative weight
+    for n in (16, 17, 18, 33, 64, 130):
+        wts = [float(ctx.rng.choice([0, 1, 1, 2, 3])) for _ in range(n)]
+        wts[0] = float(ctx.rng.choice([1, 2]))          # a first interval of positive length
+        cs = list(np.cumsum(np.array(wts)))
+        probes = sorted(set([-1.0, 0.0, 0.25, cs[0] / 2, cs[0]] + [c + d for c in cs for d in (-0.5, 0.0, 0.5)]))
+        for v in probes:
+            case = dict(fn="binary_search_interval", value=v, intervals=cs)
+            o, diff = three_way("bsi", case, c_bsi, m_bsi, lambda: (np.float64(v), np.array(cs, dtype=np.float64)), canon=int)
+            rep.count("bsi-long", (v, n, tuple(cs[:4])))
+            if diff is not None:
+                rep.problem("bsi", "compiled and mirror disagree", case, "bsi:compiled-vs-mirror", False, o, diff)
+            if not ok_interval(v, cs, o):
+                rep.problem("bsi", "binary_search_interval does not return the interval containing the value (a wheel of %d entries)" % n,
+                            case, "bsi:interval", True, o, None, "C11_interval")
+            if n <= 33:
+                f_bsi.add(f"({C.cq(v)}, {q_list(cs)}, {C.cnat(o)})", case)
     # ---------------- deterministic helpers over the lattice
     for n in range(1, nmax + 1):
         for w in lattice(n):
